@@ -175,4 +175,28 @@ theorem inv_sent_complete {s : St} (h : Inv s) (he : s.readHead = s.buf.length) 
     s.sent = s.hist := by
   rw [h.sent_eq, if_neg (by omega)]
 
+theorem step_buf_mono (s : St) (op : Op) : s.buf.length ≤ (step s op).buf.length := by
+  cases op with
+  | read n d => simp [step, read]
+  | seek =>
+    simp only [step, seek0]
+    split <;> simp
+
+theorem step_hist_prefix (s : St) (op : Op) : s.hist <+: (step s op).hist := by
+  cases op with
+  | read n d => simp [step, read]
+  | seek =>
+    simp only [step, seek0]
+    split <;> simp
+
+theorem run_buf_mono (s : St) (ops : List Op) : s.buf.length ≤ (run s ops).buf.length := by
+  induction ops generalizing s with
+  | nil => exact Nat.le_refl _
+  | cons op t ih => simp only [run, List.foldl_cons] at ih ⊢; exact Nat.le_trans (step_buf_mono s op) (ih _)
+
+theorem run_hist_prefix (s : St) (ops : List Op) : s.hist <+: (run s ops).hist := by
+  induction ops generalizing s with
+  | nil => exact List.prefix_refl _
+  | cons op t ih => simp only [run, List.foldl_cons] at ih ⊢; exact List.IsPrefix.trans (step_hist_prefix s op) (ih _)
+
 end InvProxy.Seeker
